@@ -1,6 +1,42 @@
 """C10 - rounding to integers or to fewer digits picks the mathematically right neighbour."""
+import os
+import sys
 import core
 from core import hx
+
+# coq/gen/RatioSmall.v (the six bodies of rational/src/round.rs impl Repr) and coq/gen/RoundPrimGen.v (Round::round_fract /
+# round_ratio with the conditions of their assertions, Repr::smaller_than_one, the rounds-to-zero test of FBig::round) are
+# regenerated from the Rust sources when this plug-in is imported, i.e. before the proof phase of every run.
+# C10_rat_generated_bodies/_spec, C10_round_fract_generated, C10_round_fract_assertion_generated, C10_round_ratio_generated,
+# C10_small_tests_generated prove the models equal to them; the oracle evaluates the regenerated bodies for the fidelity
+# statistic of the rational cases and of round_fract_any / round_ratio_any.  Unparseable source is not an alarm: the previous
+# copy stays (marked STALE), the status goes into the evidence and the correspondence run alone ties the models.
+sys.path.insert(0, os.path.join(core.ROOT, "tools"))
+try:
+    import translate_c10_r3
+    GEN_STATUS = translate_c10_r3.generate(core.REPO, os.path.join(core.COQ, "gen"))
+except Exception as _ex:  # the generator itself broke: same fallback as an unparseable source
+    GEN_STATUS = {"RatioSmall.v": "unparsed generator-failed: %s" % str(_ex)[:200],
+                  "RoundPrimGen.v": "unparsed generator-failed: %s" % str(_ex)[:200]}
+
+GEN_TIED = {
+    "RatioSmall.v": ("rational/src/round.rs impl Repr", "C10_rat_generated_bodies, C10_rat_generated_spec"),
+    "RoundPrimGen.v": ("float/src/round.rs Round::{round_fract, round_ratio}, repr.rs smaller_than_one, round_ops.rs FBig::round",
+                       "C10_round_fract_generated, C10_round_fract_assertion_generated, C10_round_ratio_generated, C10_small_tests_generated"),
+}
+
+
+def extra_phase(tier, seed, exes, oracle):
+    hist, samples = {}, []
+    for fname in sorted(GEN_STATUS):
+        st = GEN_STATUS[fname]
+        word = st.split(" ", 1)[0]
+        hist["translator_c10:%s:%s" % (fname[:-2], word)] = 1
+        src, thms = GEN_TIED.get(fname, ("?", "?"))
+        samples.append({"fragment": "coq/gen/%s (tools/translate_c10_r3.py from %s)" % (fname, src), "status": st,
+                        "tied_by": thms if word == "ok" else "correspondence run only (source not parsed; previous copy marked STALE)"})
+    return {"evaluations": 0, "hist": hist, "nontrivial": [], "samples": samples, "failures": []}
+
 
 ID = "C10"
 READY = True
@@ -158,6 +194,130 @@ def gen_float_value(rng, tier, b, p):
 
 
 FLOAT_OPS = ["trunc", "floor", "ceil", "round", "round", "fract", "split", "to_int", "to_int", "to_int", "repr_to_int"]
+ALL_FLOAT_OPS = ["trunc", "floor", "ceil", "round", "fract", "split", "to_int", "repr_to_int"]
+
+
+def gen_inf(rng, tier):
+    """infinities at every entry point (documented panic; with_precision / same-base conversion as they are)"""
+    b = rng.choice(BASES)
+    p = precisions(rng, tier)
+    sig = rng.choice(["inf", "-inf"])
+    k = rng.below(10)
+    if k < 6:
+        return "%s %x %s %x %s 0" % (rng.choice(ALL_FLOAT_OPS), b, rng.choice(MODES), p, sig)
+    np_ = rng.choice([0, 1, 2, max(0, p - 1), p, p + 1, 40])
+    return "%s %x %s %x %s 0 %x" % (rng.choice(["with_precision", "with_precision", "wbp_same"]), b, rng.choice(MODES), p, sig, np_)
+
+
+def gen_to_int_huge(rng, tier):
+    """to_int / repr_to_int far from the radix point: e >= 0 allocates the result (s * B^e), e << 0 takes the
+    smaller_than_one path with a digit count of the fraction in the hundred thousands (round_fract's debug assertion and,
+    where the f32 filter does not decide, the exact comparison raise B to it)"""
+    b = rng.choice(BASES)
+    p = rng.choice([0, 1, 3, 17, 40])
+    d = rng.choice([1, 2, 3, 5, 9, 20]) if p == 0 else max(1, min(p, rng.choice([1, 2, p])))
+    s = int_pattern(rng, b, d)
+    if s % b == 0:
+        s += 1
+    if rng.chance(1, 2):
+        s = -s
+    big = [5000, 20000, 65537] if tier == "quick" else [5000, 20000, 65537, 300000, 1000000]
+    k = rng.below(4)
+    if k == 0:
+        e = rng.choice(big)                      # a huge integer
+    elif k == 1:
+        e = -rng.choice(big)                     # far below one: small path
+    elif k == 2:
+        e = -(d + rng.choice([4001, 9000]))      # small path, just a few thousand zeros
+    else:
+        # a long significand whose radix point sits thousands of digits inside it
+        f = rng.choice([4001, 6000])
+        s = int_pattern(rng, b, d) * b ** f + digits_pattern(rng, b, f)
+        if s % b == 0:
+            s += 1
+        e = -f
+        p = 0
+    return fcase(rng.choice(["to_int", "to_int", "repr_to_int"]), b, rng.choice(MODES), p, s, e)
+
+
+def gen_tiny(rng, tier):
+    """exponents whose power of the base cannot be formed (down to isize::MIN): every entry point that does not reach
+    round_fract's debug assertion (to_int does: it raises the base to the digit count in builds with debug assertions)"""
+    b = rng.choice(BASES)
+    p = rng.choice([0, 0, 1, 2, 3, 17, 40])
+    d = rng.choice([1, 2, 3, 5, 9, 20]) if p == 0 else max(1, min(p, rng.choice([1, 2, p])))
+    s = int_pattern(rng, b, d)
+    if s % b == 0:
+        s += 1
+    if rng.chance(1, 2):
+        s = -s
+    e = rng.choice(["-%x" % (10 ** 7), "-%x" % (2 ** 40 + 1), "-%x" % (2 ** 63 - 1), "-%x" % (2 ** 63 - 2 - d), "min", "min", "min"])
+    op = rng.choice(["trunc", "floor", "ceil", "round", "fract", "fract", "split", "repr_to_int"])
+    return "%s %x %s %x %s %s" % (op, b, rng.choice(MODES), p, hx(s), e)
+
+
+def gen_compose(rng, tier):
+    """with_precision twice, with_rounding + with_precision, conversion to the same base"""
+    b = rng.choice(BASES)
+    p = precisions(rng, tier)
+    d = rng.choice([2, 3, 5, 9, 20, 45]) if p == 0 else max(1, min(p, rng.choice([2, 3, p - 1, p, p, p])))
+    k = rng.below(10)
+    mode = rng.choice(MODES)
+    e = rng.choice([0, 0, 1, -1, -d, 7, -30, 300, -300])
+    if k < 5:
+        # two cuts: np2 <= np1 < d mostly; patterns that make the first rounding land on a tie / carry of the second
+        np1 = max(1, rng.choice([d - 1, d - 1, d - 2, d // 2 + 1, d, d + 1]))
+        np2 = max(0, rng.choice([np1 - 1, np1 - 1, np1 - 2, 1, np1, np1 + 1, 0]))
+        keep2 = max(1, min(np2 if np2 > 0 else np1, d))
+        mid = max(0, min(np1, d) - keep2)
+        low = max(0, d - keep2 - mid)
+        t = rng.choice([0, 0, 0, 0, 1, 1, 2, 3, 4, 5])
+        if t == 0 and mid > 0 and low > 0:
+            # ...4|4 9..9 -> first rounding gives ...45 (tie of the second)
+            midv = (b ** mid) // 2 - 1 if b % 2 == 0 else (b ** mid) // 2
+            s = (int_pattern(rng, b, keep2) * b ** mid + max(0, midv)) * b ** low + (b ** low - 1 - rng.below(2))
+        elif t == 1 and mid > 0 and low > 0:
+            s = (int_pattern(rng, b, keep2) * b ** mid + (b ** mid) // 2) * b ** low + rng.choice([0, 1, b ** low - 1])
+        elif t == 2:
+            s = b ** d - 1 - rng.below(3)            # 99..9: carries through both cuts
+        else:
+            s = int_pattern(rng, b, keep2) * b ** (mid + low) + digits_pattern(rng, b, mid + low)
+        if s <= 0:
+            s = 1
+        if rng.chance(1, 2):
+            s = -s
+        return fcase("wp2", b, mode, p, s, e, np1, np2)
+    np_ = max(0, rng.choice([0, 1, 2, d - 2, d - 1, d - 1, d, d + 1, p, p + 1]))
+    keep = min(d, np_) if np_ > 0 else d
+    drop = d - keep
+    s = int_pattern(rng, b, keep) * b ** drop + digits_pattern(rng, b, drop) if drop > 0 else int_pattern(rng, b, d)
+    if rng.chance(1, 2):
+        s = -s
+    if k < 8:
+        return "wr_wp %x %s %s %x %s %s %x" % (b, mode, rng.choice(MODES), p, hx(s), hx(e), np_)
+    return fcase("wbp_same", b, mode, p, s, e, np_)
+
+
+def gen_prim_any(rng, tier):
+    """the two primitives on arbitrary input: inside / at the edge of / outside their preconditions"""
+    mode = rng.choice(MODES)
+    i = rng.choice([0, 0, 1, -1, 2, -2, 3, -3, 2 ** 64, -(2 ** 64), rng.bits(70), -rng.bits(70)])
+    if rng.chance(1, 2):
+        b = rng.choice(BASES)
+        k = rng.choice([0, 0, 0, 1, 1, 2, 3, 5, 20, 64])
+        full = b ** k
+        f = rng.choice([0, 1, full - 1, full, full + 1, full // 2, full // 2 + 1, 2 * full, full * b, rng.below(2 * full + 2)])
+        if rng.chance(1, 2):
+            f = -f
+        return "round_fract_any %x %s %s %s %x" % (b, mode, hx(i), hx(f), k)
+    d = rng.choice([0, 1, 1, 2, 3, 4, 6, 10, 2 ** 64, 2 ** 64 + 1, 2 ** 128, rng.bits(100) + 2])
+    n = rng.choice([0, 1, d, d, d + 1, d - 1 if d > 0 else 0, d // 2, 2 * d, rng.below(2 * d + 2)])
+    if rng.chance(1, 2):
+        n = -n
+    if rng.chance(1, 2):
+        d = -d
+    return "round_ratio_any %s %s %s %s" % (mode, hx(i), hx(n), hx(d))
+
 
 
 def precisions(rng, tier):
@@ -270,8 +430,14 @@ def valid(text):
     if op == "round_ratio":
         n, d = core.unhx(t[3]), core.unhx(t[4])
         return d != 0 and abs(n) < abs(d)
+    if op in ("round_fract_any", "round_ratio_any"):
+        return True
     if op[0] in "rx" and op not in ("round", "repr_to_int"):
         return core.unhx(t[2]) > 0
+    if op == "wr_wp":
+        t = t[:2] + t[3:]
+    if t[4] in ("inf", "-inf"):
+        return True
     b, p = int(t[1], 16), int(t[3], 16)
     s = core.unhx(t[4])
     while s != 0 and s % b == 0:
@@ -287,14 +453,24 @@ def gen_cases(rng, tier, n):
     while len(out) < total and tries < 10 * n + 1000:
         tries += 1
         k = rng.below(100)
-        if k < 62:
+        if k < 50:
             c = gen_float(rng, tier)
-        elif k < 76:
+        elif k < 61:
             c = gen_with_precision(rng, tier)
-        elif k < 90:
+        elif k < 73:
             c = gen_rat(rng, tier)
-        else:
+        elif k < 80:
             c = gen_prim(rng, tier)
+        elif k < 90:
+            c = gen_compose(rng, tier)
+        elif k < 96:
+            c = gen_prim_any(rng, tier)
+        elif k < 98:
+            c = gen_inf(rng, tier)
+        elif k < 99:
+            c = gen_tiny(rng, tier)
+        else:
+            c = gen_to_int_huge(rng, tier)
         if c in seen or not valid(c):
             continue
         seen.add(c)
